@@ -149,6 +149,9 @@ def adopt(dirs):
             continue
         meta = json.load(open(os.path.join(d, 'meta.json')))
         dest = os.path.join(VERIF, 'seeded', meta['property'], ('r2-' if '/rt2/' in d else '') + os.path.basename(d))
+        if os.path.exists(os.path.join(dest, 'meta.json')) and 'rebased' in json.load(open(os.path.join(dest, 'meta.json'))):
+            print('skip (adopted copy was rebased by hand):', dest)
+            continue
         os.makedirs(dest, exist_ok=True)
         for f in ('patch.diff', 'demo.py', 'demo_before.txt', 'demo_after.txt', 'meta.json'):
             if os.path.exists(os.path.join(d, f)):
@@ -169,17 +172,31 @@ if __name__ == '__main__':
     if cmd == 'runall':
         # refresh result.json of every committed seeded change: its own property's check plus the related checks listed here
         ALSO = {'C07/1': ['C05'], 'C13/3': ['C12'], 'C13/2': ['C12'], 'C02/r2-1': ['C01'], 'C02/r2-2': ['C01', 'C11'], 'C05/r2-3': ['C06'],
-                'C06/r2-3': ['C07']}
+                'C06/r2-3': ['C07'], 'C03/r2-1': ['C01'], 'C03/r2-2': ['C11', 'C01'], 'C03/r2-3': ['C07'], 'C10/r2-3': ['C01'],
+                'C07/r2-1': ['C05'], 'C07/r2-3': ['C05']}
+        only = sys.argv[2:]
         root = os.path.join(VERIF, 'seeded')
+        jobs = []
         for pid in sorted(os.listdir(root)):
             for k in sorted(os.listdir(os.path.join(root, pid))):
                 d = os.path.join(root, pid, k)
-                if not os.path.exists(os.path.join(d, 'meta.json')):
+                if not os.path.exists(os.path.join(d, 'meta.json')) or (only and pid not in only):
                     continue
-                if os.path.exists(os.path.join(d, 'result.json')):
-                    os.remove(os.path.join(d, 'result.json'))
-                r = run_one(d, [pid] + ALSO.get('%s/%s' % (pid, k), []))
-                print(pid, k, {p: c['exit'] for p, c in r['checks'].items()}, r.get('error', ''))
+                jobs.append((pid, k, d))
+
+        def one(job):
+            pid, k, d = job
+            if os.path.exists(os.path.join(d, 'result.json')):
+                os.remove(os.path.join(d, 'result.json'))
+            r = run_one(d, [pid] + ALSO.get('%s/%s' % (pid, k), []))
+            return '%s %s %r %s' % (pid, k, {p: c['exit'] for p, c in r['checks'].items()}, r.get('error', ''))
+        from concurrent.futures import ThreadPoolExecutor
+        # C20 regenerates Lean sources and rebuilds the driver from the patched tree: those run alone, after the others
+        with ThreadPoolExecutor(max_workers=int(os.environ.get('SEEDED_JOBS', '4'))) as ex:
+            for line in ex.map(one, [j for j in jobs if j[0] != 'C20']):
+                print(line, flush=True)
+        for j in [j for j in jobs if j[0] == 'C20']:
+            print(one(j), flush=True)
         sys.exit(0)
     if cmd == 'confirm':
         from concurrent.futures import ThreadPoolExecutor
